@@ -85,7 +85,16 @@ OPTION_SETS = [
 ]
 
 
+# the --drop_globals name fragments (the documented rule; a run that drops a slice with another name loses it)
+DOCUMENTED_GLOBALS = ["Execute graph", "SenFusedDeviceNode", "AIU Roundtrip", "Flex RoundTrip",
+                      "PostKeys", "FetchKeys", "Callback", "HostPrep", "AllocateFrame of", "Update CBs"]
+
+
 def glb_names():
+    return list(DOCUMENTED_GLOBALS)
+
+
+def _glb_names_from_source():
     src = (REPO / "src/aiu_trace_analyzer/pipeline/drop_global_event.py").read_text()
     for node in ast.walk(ast.parse(src)):
         if isinstance(node, ast.Assign) and any(isinstance(t, ast.Name) and t.id == "glb_names" for t in node.targets):
@@ -174,7 +183,8 @@ def e2e_job(job):
     r = stage.e2e(argv, files, keep_dir=with_I)
     res = {"rc": r["rc"], "error": r["error"], "exported": None, "stages": None}
     if r["events"] is not None:
-        res["exported"] = [(uid_of(e), {k: (e.get("args") or {}).get(k) for k in ("usr_note", "custom_top", "usr_args")})
+        res["exported"] = [(uid_of(e), {k: (e.get("args") or {}).get(k, "<absent>")
+                                         for k in ("usr_note", "custom_top", "usr_args", "usr_null", "usr_nest")})
                            for e in r["events"] if e.get("ph") == "X" and uid_of(e) is not None]
     if with_I and r.get("dir"):
         d = r["dir"]
